@@ -1,4 +1,5 @@
 import Driver.C04
+import Driver.C01_Term
 import Driver.C19W
 import Driver.C11_Tags
 import Driver.C09Floats
@@ -32,6 +33,7 @@ partial def loop (h : IO.FS.Stream) (out : IO.FS.Stream) (f : String → String)
   loop h out f
 
 def modes : List (String × (String → String)) := [
+  ("c01t", C01T.handle),
   ("c19w", C19W.handle),
   ("c11tag", C11Tags.handle),
   ("c09f", C09Floats.handle),
